@@ -12,18 +12,26 @@ for line in open(lst):
     sid, demo, tgt, checks = parts[:4]
     prop, k = sid.split('-')
     nid = f"{prop}-{int(k)+int(off)}"
-    res = None
+    res, first = None, None
     for d in resdirs.split(','):
         p = os.path.join(d, sid + '.txt')
-        if os.path.exists(p): res = p
+        if os.path.exists(p):
+            res = p
+            if first is None: first = p
     txt = open(res).read() if res else ""
+    first_missed = first is not None and first != res and 'VIOLATION' not in open(first).read()
+    # the confirmation may be in an earlier result file than the final check run
+    ctxt = txt
+    for d in resdirs.split(','):
+        p = os.path.join(d, sid + '.txt')
+        if os.path.exists(p) and "== clean tree: demo\nok" in open(p).read(): ctxt = open(p).read()
     sigs, cur = [], None
     for l in txt.splitlines():
         m = re.match(r'VIOLATION property=(C\d+)', l)
         if m: cur = m.group(1)
         m = re.match(r'\s+sig=(\S+)', l)
         if m and cur: sigs.append(f"{cur}:{m.group(1)}")
-    confirmed = ("== clean tree: demo\nok" in txt) and ("== patched: demo\nFAIL" in txt or re.search(r'== patched: demo\n(--- FAIL|FAIL|panic)', txt) is not None)
+    confirmed = ("== clean tree: demo\nok" in ctxt) and (re.search(r'== patched: demo\n(--- FAIL|FAIL|panic)', ctxt) is not None)
     dst = f"/verif/seeded/{nid}"
     os.makedirs(dst, exist_ok=True)
     for f in os.listdir(os.path.join(src, sid)):
@@ -36,6 +44,8 @@ for line in open(lst):
             "base_commit": base,
             "confirmed": "tools/confirm_seed.sh: demo passes on the clean tree; with the patch: go build ok, repository tests pass, demo fails" if confirmed else "NOT CONFIRMED (see notes)",
             "checks_run": f"tools/try_patch_wt.sh patch.diff {checks.replace(',', ' ')} (quick tier, VERIF_SEED=1)",
-            "caught_by": sorted(set(sigs)), "missed": not sigs, "notes": ""}
+            "caught_by": sorted(set(sigs)), "missed": not sigs,
+            "missed_by_the_checks_as_they_were_when_it_arrived": first_missed,
+            "notes": "first tried and missed; caught after the strengthening recorded in DESIGN.md section 13" if first_missed else ""}
     json.dump(meta, open(os.path.join(dst, "meta.json"), "w"), indent=1)
     print(nid, "caught" if sigs else "MISSED", "confirmed" if confirmed else "UNCONFIRMED", len(sigs))
